@@ -7,7 +7,6 @@ import (
 	"time"
 
 	sdk "github.com/cosmos/cosmos-sdk/types"
-	"github.com/ethereum/go-ethereum/common"
 	tmproto "github.com/tendermint/tendermint/proto/tendermint/types"
 
 	"github.com/teleport-network/teleport/app"
@@ -45,7 +44,8 @@ type ClientSpec struct {
 	Name    string      `json:"name"`
 	Type    string      `json:"type"` // tm | bsc | eth
 	Heights [][2]string `json:"heights"`
-	Signers [][2]string `json:"signers,omitempty"`
+	Signers [][2]string `json:"signers,omitempty"` // bsc only
+	Pending bool        `json:"pending,omitempty"` // bsc only: call SetPendingValidators
 }
 
 type IterSpec struct {
@@ -91,6 +91,7 @@ type PerClient struct {
 
 type IterObs struct {
 	SetupClass  int         `json:"setup_class"` // 0: every write of the procedure returned; 2: one of them panicked
+	BaseKeys    []string    `json:"base_keys"`   // keys of the xibc store before the case writes anything
 	StoreKeys   []string    `json:"store_keys"`
 	Cons        Items3      `json:"cons"`
 	Clients     Items1      `json:"clients"`
@@ -210,10 +211,11 @@ func runIter(raw json.RawMessage) interface{} {
 		name, typ string
 		hs, sg    []clienttypes.Height
 		cs        exported.ClientState
+		pending   bool
 	}
 	var cls []cl
 	for _, c := range s.Clients {
-		cls = append(cls, cl{string(unhex(c.Name)), c.Type, heights(c.Heights), heights(c.Signers), clientStateOf(c.Type)})
+		cls = append(cls, cl{string(unhex(c.Name)), c.Type, heights(c.Heights), heights(c.Signers), clientStateOf(c.Type), c.Pending})
 	}
 	comm, acks, recs, nseq := triples(s.Commitments), triples(s.Acks), triples(s.Receipts), triples(s.NextSeq)
 	var rels []string
@@ -232,6 +234,8 @@ func runIter(raw json.RawMessage) interface{} {
 			o.SetupClass = 2
 		}
 	}
+
+	o.BaseKeys = allKeys(ctx.KVStore(e.key))
 
 	// ---- writes
 	for _, c := range cls {
@@ -256,17 +260,10 @@ func runIter(raw json.RawMessage) interface{} {
 				bsctypes.SetSigner(store, bsctypes.Signer{Height: h, Validator: bytes.Repeat([]byte{byte(0x30 + i)}, 20)})
 			})
 		}
-		if c.typ == "bsc" {
+		if c.pending {
 			do(func() {
 				bsctypes.SetPendingValidators(store, cdc, [][]byte{bytes.Repeat([]byte{9}, 20), bytes.Repeat([]byte{10}, 20)})
 			})
-		}
-		if c.typ == "eth" && len(c.hs) > 0 {
-			hh := c.hs[0].RevisionHeight
-			hd := ethHeader(hh)
-			root := sha256.Sum256([]byte("c19-eth-root/" + c.name))
-			do(func() { ethclient.SetEthHeaderIndex(store, hd, []byte{1, 2, 3}) })
-			do(func() { ethclient.SetEthConsensusRoot(store, hh, common.BytesToHash(root[:]), hd.Hash()) })
 		}
 	}
 	hashOf := func(tag string, t triple) []byte {
